@@ -1,0 +1,58 @@
+// Verification hooks (cargo feature `verif-hooks`); not part of the protocol.
+
+//! Canonical digest of a [`SlotState`] for explicit-state exploration.
+
+use std::hash::{Hash, Hasher};
+
+use super::SlotState;
+
+impl SlotState {
+    /// Feeds every field of this slot state into `h`, in a canonical order.
+    ///
+    /// Signature bytes are left out; they are a function of key and payload.
+    pub(in crate::consensus::pool) fn verif_digest<H: Hasher>(&self, h: &mut H) {
+        self.slot.hash(h);
+        for (v, vote) in self.votes.notar.iter().enumerate() {
+            if let Some(vote) = vote {
+                (0u8, v, vote.block_hash()).hash(h);
+            }
+        }
+        for (v, votes) in self.votes.notar_fallback.iter().enumerate() {
+            for hash in votes.keys() {
+                (1u8, v, hash).hash(h);
+            }
+        }
+        for (v, vote) in self.votes.skip.iter().enumerate() {
+            (2u8, v, vote.is_some()).hash(h);
+        }
+        for (v, vote) in self.votes.skip_fallback.iter().enumerate() {
+            (3u8, v, vote.is_some()).hash(h);
+        }
+        for (v, vote) in self.votes.finalize.iter().enumerate() {
+            (4u8, v, vote.is_some()).hash(h);
+        }
+        format!("{:?}", self.voted_stakes.notar).hash(h);
+        format!("{:?}", self.voted_stakes.notar_fallback).hash(h);
+        self.voted_stakes.skip.hash(h);
+        self.voted_stakes.skip_fallback.hash(h);
+        self.voted_stakes.finalize.hash(h);
+        self.voted_stakes.notar_or_skip.hash(h);
+        self.voted_stakes.top_notar.hash(h);
+        let c = &self.certificates;
+        if let Some(cert) = &c.notar {
+            (10u8, cert.block_hash()).hash(h);
+        }
+        for cert in &c.notar_fallback {
+            (11u8, cert.block_hash()).hash(h);
+        }
+        (12u8, c.skip.is_some()).hash(h);
+        if let Some(cert) = &c.fast_finalize {
+            (13u8, cert.block_hash()).hash(h);
+        }
+        (14u8, c.finalize.is_some()).hash(h);
+        format!("{:?}", self.parents).hash(h);
+        format!("{:?}", self.pending_safe_to_notar).hash(h);
+        format!("{:?}", self.sent_safe_to_notar).hash(h);
+        self.sent_safe_to_skip.hash(h);
+    }
+}
